@@ -8,6 +8,7 @@ package main
 import (
 	"encoding/hex"
 	"fmt"
+	"strings"
 
 	"github.com/ethereum/go-ethereum/common"
 	abcitypes "github.com/tendermint/tendermint/abci/types"
@@ -107,10 +108,14 @@ func crashCase(env *vlib.Env, h int, rep *vlib.Reporter) {
 				if !isMember(rp.App, hist.U.Addrs[signer]) {
 					class = "hostile-outsider"
 				}
+				label := hm.Label
+				if hm.Invalid {
+					label = "INVALID:" + label
+				}
 				inj = append(inj, struct {
 					class string
 					tx    smchain.Tx
-				}{class, hist.U.SignTx(signer, nonce, smchain.ChainID, hm.Msg, hm.Label)})
+				}{class, hist.U.SignTx(signer, nonce, smchain.ChainID, hm.Msg, label)})
 			}
 		}
 		if b%4 == 3 && lastValid != nil {
@@ -156,6 +161,23 @@ func crashCase(env *vlib.Env, h int, rep *vlib.Reporter) {
 			}
 			rep.Obs("hostile_calls", 2)
 			rep.Eval(in.class+"/"+in.tx.Label+"/"+tag, nontriv)
+			if strings.Contains(in.tx.Label, "INVALID:") {
+				// structurally invalid whatever the state and the signer
+				rep.Obs("always_invalid_payloads_judged", 1)
+				// (CheckTx only looks at the envelope, the signer and the nonce: its answer is not judged here)
+				if d.Code == 0 || len(d.Events) > 0 {
+					rep.Violationf("code0:structurally-invalid:"+in.tx.Label[strings.Index(in.tx.Label, "INVALID:")+8:], map[string]any{"tx": desc, "class": in.class, "check_code": c.Code, "deliver_code": d.Code, "events": len(d.Events)},
+						"a structurally invalid payload (%s) signed by a %s was answered with CheckTx code %d, DeliverTx code %d, %d events", in.tx.Label, in.class, c.Code, d.Code, len(d.Events))
+				}
+			}
+			if in.class == "malformed" || in.class == "replay" || in.class == "wrongchain" {
+				// the mempool's recheck must refuse it as well
+				var rc abcitypes.ResponseCheckTx
+				if !rep.Guard("panic:CheckTx(recheck):"+in.class+":"+in.tx.Label, desc, func() { rc = rp.CheckTxRecheck(in.tx) }) && rc.Code == 0 {
+					rep.Violationf("code0:CheckTx(recheck):"+in.class, map[string]any{"tx": desc}, "%s transaction %s passed the mempool recheck", in.class, in.tx.Label)
+				}
+				rep.Obs("recheck_calls", 1)
+			}
 			switch in.class {
 			case "malformed", "replay", "wrongchain":
 				if c.Code == 0 {
